@@ -44,7 +44,7 @@ EDITS = [
      [(r'\bgutter\b', 'gutter_width', 0)], ['C15']),
     ('H11-negated-branch', 'crates/toml_edit/src/parser/strings.rs',
      [(r'(?s)if t\.contains\("\\r\\n"\) \{\s*Cow::Owned\(t\.replace\("\\r\\n", "\\n"\)\)\s*\} else \{\s*Cow::Borrowed\(t\)\s*\}',
-       'if !t.contains("\\r\\n") {\n                    Cow::Borrowed(t)\n                } else {\n                    Cow::Owned(t.replace("\\r\\n", "\\n"))\n                }', 1)], ['C02']),
+       lambda m: 'if !t.contains("\\r\\n") {\n                    Cow::Borrowed(t)\n                } else {\n                    Cow::Owned(t.replace("\\r\\n", "\\n"))\n                }', 1)], ['C02']),
     ('H12-field-order', 'crates/toml_edit/src/parser/datetime.rs',
      [(r'(?s)Some\(\(_, time, offset\)\) => Datetime \{\s*date: Some\(date\),\s*time: Some\(time\),\s*offset,\s*\}',
        'Some((_, time, offset)) => Datetime {\n                            offset,\n                            time: Some(time),\n                            date: Some(date),\n                        }', 1)], ['C12']),
